@@ -27,21 +27,23 @@ def header(version, seq, fid, response=True, callback=False):
     return [seq & 0xFF, fc, 0x01, fid & 0xFF, (fid >> 8) & 0xFF]
 
 
-def parse_header(version, data):
-    """-> (seq, frame_control_low, frame id, payload) or None when the frame is not framed for this version."""
+def parse_header(version, data, strict=True):
+    """-> (seq, frame_control_low, frame id, payload) or None when the frame is not framed for this version.
+
+    strict=False judges only the field positions (frame-control / format bytes are not examined)."""
     d = list(data)
     fam = family(version)
     if fam == "legacy3":
         if len(d) < 3:
             return None
-        if d[2] == 0xFF:  # extended legacy header used with a v4 NCP: not its format
+        if strict and d[2] == 0xFF:  # extended legacy header used with a v4 NCP: not its format
             return None
         return d[0], d[1], d[2], d[3:]
     if fam == "legacy5":
-        if len(d) < 5 or d[2] != 0xFF or d[3] != 0x00:
+        if len(d) < 5 or (strict and (d[2] != 0xFF or d[3] != 0x00)):
             return None
         return d[0], d[1], d[4], d[5:]
-    if len(d) < 5 or (d[2] & 0x03) != 0x01:
+    if len(d) < 5 or (strict and (d[2] & 0x03) != 0x01):
         return None
     return d[0], d[1], d[3] | (d[4] << 8), d[5:]
 
@@ -108,7 +110,7 @@ def enc(typ, v):
         return [b for it in items for b in enc(typ._item_type, it)]
     if k == "lvlist":
         items = list(v)
-        n = typ._prefix_length
+        n = typ._length_type._size
         return [(len(items) >> (8 * i)) & 0xFF for i in range(n)] + [b for it in items for b in enc(typ._item_type, it)]
     if k == "list":
         return [b for it in v for b in enc(typ._item_type, it)]
@@ -153,7 +155,7 @@ def dec(typ, data):
             out.append(x)
         return out, d
     if k == "lvlist":
-        n = typ._prefix_length
+        n = typ._length_type._size
         if len(d) < n:
             raise CodecError("short")
         ln = sum(d[i] << (8 * i) for i in range(n))
@@ -233,3 +235,50 @@ def plainify(v):
     if hasattr(v, "fields") and hasattr(v, "as_dict"):
         return {f.name: plainify(getattr(v, f.name)) for f in type(v).fields}
     return v
+
+
+def sample(typ, salt=1):
+    """A plain, in-range sample value for a type (varied by `salt`)."""
+    k = _kind(typ)
+    if k == "int":
+        n = typ._size
+        if typ._signed:
+            return ((salt * 37) % (1 << (8 * n - 1))) - (salt % 2) * 3
+        members = None
+        try:
+            members = [int(m) for m in typ] if hasattr(typ, "__members__") and "Flag" not in [c.__name__ for c in typ.__mro__] else None
+        except TypeError:
+            members = None
+        if members:
+            return members[salt % len(members)]
+        return (salt * 0x3B + 1) % (1 << (8 * n))
+    if k in ("lvbytes", "bytes"):
+        return bytes((salt + i) & 0xFF for i in range(1 + salt % 3))
+    if k == "fixedlist":
+        return [sample(typ._item_type, salt + i) for i in range(typ._length)]
+    if k in ("lvlist", "list"):
+        return [sample(typ._item_type, salt + i) for i in range(1 + salt % 2)]
+    if k == "struct":
+        out = {}
+        for i, f in enumerate(typ.fields):
+            out[f.name] = sample(f.type, salt + i)
+        return out
+    raise CodecError(k)
+
+
+def sample_schema(schema, salt=1):
+    if isinstance(schema, dict):
+        return [sample(t, salt + i) for i, t in enumerate(schema.values())]
+    if isinstance(schema, (tuple, list)):
+        return []
+    return sample(schema, salt)
+
+
+def build(typ, plain):
+    """Plain value -> instance of the schema type (for calling commands with typed arguments)."""
+    k = _kind(typ)
+    if k == "struct":
+        return typ(**{f.name: build(f.type, plain[f.name]) for f in typ.fields if plain.get(f.name) is not None})
+    if k in ("fixedlist", "lvlist", "list"):
+        return typ([build(typ._item_type, x) for x in plain])
+    return typ(plain)
